@@ -107,8 +107,9 @@ def has_dcf(spec):
     return any(node_at(spec, p)["dcf"] is not None for p in all_paths(spec))
 
 
-def gen_cfg_tree(rng, spec, p_opt=0.5, p_name=0.3, p_sec=0.5, multi=0.35, depth=0):
-    """a configuration tree relative to the parser `spec`"""
+def gen_cfg_tree(rng, spec, p_opt=0.5, p_name=0.3, p_sec=0.5, multi=0.35, depth=0, p_bad=0.0):
+    """a configuration tree relative to the parser `spec`; `p_bad`: chance that a subcommand key holds something that is
+    not a subcommand name (the empty string, an unknown name)"""
     t = {}
     for name, _ in spec["opts"]:
         if rng.random() < p_opt:
@@ -124,9 +125,11 @@ def gen_cfg_tree(rng, spec, p_opt=0.5, p_name=0.3, p_sec=0.5, multi=0.35, depth=
             secs = rng.sample(names, k)
         if rng.random() < p_name:
             t[sub["dest"]] = rng.choice(names)
+        if rng.random() < p_bad:
+            t[sub["dest"]] = rng.choice(["", "", "nosuch"])
         items = list(t.items())
         for n in secs:
-            items.append((n, gen_cfg_tree(rng, dict(sub["choices"])[n], 0.7, p_name, p_sec, multi, depth + 1)))
+            items.append((n, gen_cfg_tree(rng, dict(sub["choices"])[n], 0.7, p_name, p_sec, multi, depth + 1, p_bad)))
         rng.shuffle(items)
         t = dict(items)
     return t
@@ -200,7 +203,8 @@ def gen_input(rng, spec):
     if kind == "args":
         inp["argv"] = gen_argv(rng, spec, rng.choice([0.3, 0.7, 0.9]))
     elif kind in ("string", "object", "path"):
-        inp["tree"] = gen_cfg_tree(rng, spec, 0.5, rng.choice([0.2, 0.5]), rng.choice([0.4, 0.8]), rng.choice([0.2, 0.5]))
+        inp["tree"] = gen_cfg_tree(rng, spec, 0.5, rng.choice([0.2, 0.5]), rng.choice([0.4, 0.8]), rng.choice([0.2, 0.5]),
+                                   p_bad=0.4 if rng.random() < 0.04 else 0.0)
     return inp
 
 
@@ -521,6 +525,83 @@ def get_request(spec, g):
             "fail": g["fail"], "single": g["single"], "pre": pre, "cfg": sub_wire(g["in"], g["prefix"])}
 
 
+def spec_defaults_wire(spec):
+    """what get_defaults returns for a parser without default config files (written from the spec, not taken from the code)"""
+    kv = []
+    if spec["cfg"]:
+        kv.append(["cfg", None])
+    for name, d in spec["opts"]:
+        kv.append([name, d])
+    if spec["sub"]:
+        kv.append([spec["sub"]["dest"], None])
+    return {"s": kv}
+
+
+def p_wire_full(spec, envcs, path=()):
+    d = {"dflt": spec_defaults_wire(spec), "envc": envcs.get(path, {"s": []}), "sub": None, "choices": []}
+    if spec["sub"]:
+        d["sub"] = {"dest": spec["sub"]["dest"], "required": spec["sub"]["required"]}
+        d["choices"] = [[n, p_wire_full(c, envcs, path + (n,))] for n, c in spec["sub"]["choices"]]
+    return d
+
+
+def argv_wire(av):
+    items = []
+    for it in av["items"]:
+        if "opt" in it:
+            items.append([False, {"s": [[it["opt"][0], it["opt"][1]]]}])
+        else:
+            items.append([True, tree_to_wire(it["cfg"])])
+    return {"items": items, "sub": [av["sub"][0], argv_wire(av["sub"][1])] if av["sub"] else None}
+
+
+def drop_key(w, key="cfg"):
+    if isinstance(w, dict):
+        return {"s": [[k, drop_key(v, key)] for k, v in w["s"] if k != key]}
+    return w
+
+
+def env_layers(spec, inp):
+    """what `_load_env_vars` of every parser returns under the environment of the input (taken from the real code:
+    the environment branch is judged by the oracle, not by this correspondence)"""
+    from jsonargparse._common import parser_context
+
+    for k in list(os.environ):
+        if k.startswith("APP_"):
+            del os.environ[k]
+    built = Built(spec)
+    out = {}
+    try:
+        os.environ.update(inp.get("env") or {})
+        with warnings.catch_warnings():
+            warnings.simplefilter("ignore")
+            for path, parser in built.by_path.items():
+                try:
+                    with parser_context(load_value_mode=parser.parser_mode):
+                        out[path] = enc(parser._load_env_vars(env=os.environ, defaults=True))
+                except Exception:  # noqa: BLE001
+                    return None
+    finally:
+        for k in (inp.get("env") or {}):
+            os.environ.pop(k, None)
+        built.close()
+    return out
+
+
+def pipeline_request(spec, inp):
+    """model request for the whole parse_args (trees without default config files only)"""
+    if inp["kind"] != "args" or has_dcf(spec):
+        return None
+    mode = "env" if spec.get("default_env") else "dflt"
+    envcs = {}
+    if mode == "env":
+        envcs = env_layers(spec, inp)
+        if envcs is None:
+            return None
+    return {"op": "args", "p": p_wire_full(spec, envcs), "argv": argv_wire(inp["argv"]), "ns": {"s": []}, "single": True, "mode": mode,
+            "validate": True}
+
+
 def same(a, b):
     return json.dumps(a, sort_keys=True) == json.dumps(b, sort_keys=True)
 
@@ -672,6 +753,9 @@ def reference(spec, inp):
                 v = sect.get(sub["dest"])
                 krank = {"dcf": 0, "envcfg": 1, "env": 2, "given": 3}[kind]
                 secs = [n for n in names if isinstance(sect.get(n), dict) and has_leaf(sect[n])]
+                if v is not None and kind in ("dcf", "envcfg") and any(len(base) <= k for k in env_named_at):
+                    # finding F_ENVNAME: the named sub-parser's default (None) for its own subcommand key is copied over this value
+                    hints[("choice", path)] = F_ENVNAME
                 if v is not None:
                     explicit.append((krank, rank if kind == "given" else 0, len(base), v))
                 elif kind == "dcf" and secs:
@@ -708,7 +792,9 @@ def reference(spec, inp):
             checks.append((path, vals, sub["dest"], chosen, names))
             return ("ok-open", checks, notes, hints)   # the chosen one is one of a set: checked up to here
         if chosen not in names:
-            return ("ambiguous", "a source names something that is not a subcommand", notes)
+            # the source of highest precedence names something that is not a subcommand: nothing is selected, the parse must fail
+            hints["bad-name"] = F_FALSY if not chosen else None
+            return ("error-any", ".".join(path + (sub["dest"],)), notes, hints)
         checks.append((path, vals, sub["dest"], chosen, names))
         path = path + (chosen,)
         node = dict(sub["choices"])[chosen]
@@ -769,6 +855,10 @@ def judge(spec, inp, res):
         return devs, ref
     early = F_EARLY if early_selection_possible(spec, inp) else None
     leak = F_LEAK if leak_possible(spec, inp) else None
+    if ref[0] == "error-any":
+        if "ok" in res:
+            devs.append(("%r is given a value that is not a subcommand name but the parse succeeds" % ref[1], ref[3].get("bad-name")))
+        return devs, ref
     if ref[0] == "error":
         if "ok" in res:
             devs.append(("no subcommand can be determined for required %r but the parse succeeds" % ref[1], None))
@@ -779,6 +869,8 @@ def judge(spec, inp, res):
         return devs, ref   # the walk stopped at a level where the rule admits several subcommands; a deeper required one may be missing
     if "ok" not in res:
         fid = leak
+        if res.get("err") in ("nosub", "reqkey") and any(isinstance(k, tuple) and k and k[0] == "choice" for k in ref[3]):
+            fid = F_ENVNAME
         if res.get("err") in ("nosub", "reqkey") and early:
             fid = early
         devs.append(("the reference selects a subcommand at every level but the parse fails: %s" % json.dumps(res)[:200], fid))
@@ -804,13 +896,14 @@ def judge(spec, inp, res):
         if chosen is None:
             if got is not None:
                 devs.append(("no subcommand determinable at %s but %s=%r" % (where, dest, got), early))
+                break
             present = [n for n in names if n in sect]
             if present:
                 devs.append(("no subcommand selected at %s but sections %s are present" % (where, present), None))
             continue
         adm = chosen if isinstance(chosen, set) else {chosen}
         if got not in adm:
-            devs.append(("selected subcommand at %s is %r, the rule gives %s" % (where, got, sorted(adm)), early))
+            devs.append(("selected subcommand at %s is %r, the rule gives %s" % (where, got, sorted(adm)), ref[3].get(("choice", path)) or early))
             break
         others = [n for n in names if n != got and n in sect and sect[n] is not None]
         if others:
@@ -909,7 +1002,7 @@ def sanitize_tree(node, t):
         if k in opts and not isinstance(v, dict):
             out[k] = v
         elif sub and k == sub["dest"]:
-            if v is None or v in names:
+            if v is None or v in names or v in ("", "nosuch"):
                 out[k] = v
         elif k in names and isinstance(v, dict):
             out[k] = sanitize_tree(dict(sub["choices"])[k], v)
@@ -1098,6 +1191,14 @@ def check_case(ctx, spec, inp, origin, stats):
     elif finals and real["res"].get("err") in ("nosub", "reqkey") and real["calls"][-1] is finals[-1] and "err" in finals[-1]["out"]:
         # the error was raised by the final call itself (not by the parse of a sub-parser's command line)
         reqs.append((final_request(spec, finals[-1]), canon_out(real["res"]), "final", finals[-1]))
+    # (c) the whole pipeline
+    if "ok" in real["res"] or real["res"].get("err") in ("nosub", "reqkey"):
+        rq = pipeline_request(spec, inp)
+        if rq is not None:
+            exp = canon_out(real["res"])
+            if "ok" in exp:
+                exp = {"ok": canon(drop_key(exp["ok"]))}
+            reqs.append((rq, exp, "pipeline", None))
     return real, reqs
 
 
@@ -1114,6 +1215,10 @@ def model_answers(ctx, reqs):
 
 
 def model_view(kind, ans):
+    if kind == "pipeline":
+        if "ok" in ans:
+            return {"ok": canon(drop_key(ans["ok"]))}
+        return canon_out(ans)
     if kind == "get":
         if "ok" in ans:
             names = [v for v in ans["ok"]["todo"]]
@@ -1135,7 +1240,7 @@ def run(ctx: Ctx):
         "the final parse has defaults=True (the default); precedence between default config files and environment of different levels is left to C04",
         "dotted keys address paths of a tree (C11); config files contain no dotted keys",
     ]
-    ctx.lean_build(extractors=[])
+    ctx.lean_build(extractors=["subcmd_shape"])
 
     from ..lib import corpus as corpus_mod
 
@@ -1151,7 +1256,7 @@ def run(ctx: Ctx):
             spec = gen_spec(ctx.rng, ctx.rng.choice([0.0, 0.15, 0.3]))
         cases.append((spec, gen_input(ctx.rng, spec), "generated"))
 
-    stats = {"skipped_calls": 0, "handle_calls": 0, "get_calls": 0, "final": 0, "ambiguous": 0, "ok-open": 0}
+    stats = {"skipped_calls": 0, "handle_calls": 0, "get_calls": 0, "final": 0, "pipeline": 0, "ambiguous": 0, "ok-open": 0}
     all_reqs = []
     judged = []
     for spec, inp, origin in cases:
@@ -1171,7 +1276,7 @@ def run(ctx: Ctx):
     if answers is not None:
         for (rq, spec, inp), ans in zip(all_reqs, answers):
             req, exp, kind, rec = rq
-            stats[{"handle": "handle_calls", "get": "get_calls", "final": "final"}[kind]] += 1
+            stats[{"handle": "handle_calls", "get": "get_calls", "final": "final", "pipeline": "pipeline"}[kind]] += 1
             ctx.count()
             got = model_view(kind, ans)
             if not same(got, exp):
@@ -1192,7 +1297,7 @@ def run(ctx: Ctx):
             stats["ambiguous"] += 1
         elif ref[0] == "ok-open":
             stats["ok-open"] += 1
-        if ref[0] in ("ok", "error", "ok-open") and spec["sub"]:
+        if ref[0] in ("ok", "error", "ok-open", "error-any") and spec["sub"]:
             ctx.nontrivial(json.dumps([spec, inp], sort_keys=True))
         ctx.hist("reference", ref[0])
         report(ctx, spec, inp, devs, origin)
@@ -1245,6 +1350,73 @@ def report(ctx, spec, inp, devs, origin):
         break
 
 
+def direct_reference(spec, d):
+    """contract of handle_subcommands(fail_no_subcommand=True) on a namespace, written from the docstrings/comments of
+    get_subcommands and handle_subcommands ("explicit key, else first with settings", "Remove extra subcommand settings",
+    "Merge environment variable values and default values", the friendly error for a required subcommand).
+    Only for trees without default config files and defaults-only layers, clean namespaces.  Returns None if not applicable,
+    else ("error", key) | ("ok", checks)."""
+    if not (d["fail"] and d["single"] and d["mode"] == "dflt") or has_dcf(spec):
+        return None
+    checks = []
+    node, t, path = spec, d["tree"], ()
+    while node["sub"]:
+        sub = node["sub"]
+        names = [n for n, _ in sub["choices"]]
+        for n in names:
+            if n in t and not isinstance(t[n], dict):
+                return None
+        v = t.get(sub["dest"])
+        if v is not None and v not in names:
+            return None
+        # below the top level the given section has gone through merge_config, which copies leaves: a namespace without
+        # leaves does not arrive
+        secs = [n for n in names if isinstance(t.get(n), dict) and (not path or has_leaf(t[n]))]
+        chosen = v if v is not None else (secs[0] if secs else None)
+        if chosen is None:
+            if sub["required"]:
+                return ("error", ".".join(path + (sub["dest"],)))
+            break
+        child = dict(sub["choices"])[chosen]
+        given = t.get(chosen) if isinstance(t.get(chosen), dict) else {}
+        vals = {name: given.get(name, dflt) for name, dflt in child["opts"]}
+        gone = [n for n in secs if n != chosen] if len(secs) > 1 else []
+        checks.append((path, sub["dest"], chosen, vals, gone))
+        node, t, path = child, given, path + (chosen,)
+    return ("ok", checks)
+
+
+def direct_judge(spec, d, out):
+    ref = direct_reference(spec, d)
+    if ref is None:
+        return None
+    if ref[0] == "error":
+        if "ok" in out:
+            return "handle_subcommands accepts a namespace in which the required %r cannot be determined" % ref[1]
+        if out.get("err") != "nosub" or out.get("key") != ref[1]:
+            return "handle_subcommands fails with %s where the subcommand error for %r is due" % (json.dumps(out)[:120], ref[1])
+        return None
+    if "ok" not in out:
+        return "handle_subcommands fails (%s) on a namespace in which every level is determined" % json.dumps(out)[:160]
+    plain = wire_to_plain(out["ok"])
+    for path, dest, chosen, vals, gone in ref[1]:
+        sect, ok = tree_get(plain, path)
+        where = ".".join(path) or "<root>"
+        if not ok or not isinstance(sect, dict):
+            return "no namespace at %s after handle_subcommands" % where
+        if sect.get(dest) != chosen:
+            return "subcommand key at %s is %r, the rule gives %r" % (where, sect.get(dest), chosen)
+        if not isinstance(sect.get(chosen), dict):
+            return "no section for the selected subcommand %s at %s" % (chosen, where)
+        for name, v in vals.items():
+            if sect[chosen].get(name) != v:
+                return "setting %s of %s at %s is %r, expected %r (given values over defaults)" % (name, chosen, where, sect[chosen].get(name), v)
+        left = [n for n in gone if n in sect]
+        if left:
+            return "extra subcommand settings %s are not removed at %s" % (left, where)
+    return None
+
+
 def direct_stage(ctx, stats):
     n = ctx.budget(250, 3000) * (2 if ctx.search_boost > 1 else 1)
     reqs = []
@@ -1256,6 +1428,13 @@ def direct_stage(ctx, stats):
         env = gen_env(ctx.rng, spec, 0.3) if d["mode"] == "env" else {}
         calls, gets, nwarn = direct_run(spec, d, env)
         ctx.hist("direct_mode", d["mode"])
+        top = [c for c in calls if c["path"] == () and c["depth"] == 0 and "out" in c]
+        if top:
+            why = direct_judge(spec, d, canon_out(top[0]["out"]))
+            ctx.count()
+            if why is not None and getattr(ctx, "_c17_direct", 0) < 2:
+                ctx._c17_direct = getattr(ctx, "_c17_direct", 0) + 1
+                ctx.violation("handle_subcommands breaks its contract: " + why, {"kind": "direct", "spec": spec, "direct": d, "out": canon_out(top[0]["out"]), "why": why})
         for c in calls:
             if c["path"] is None or c.get("layer_failed") or "out" not in c:
                 stats["skipped_calls"] += 1
@@ -1290,6 +1469,16 @@ def replay(ctx: Ctx, body):
     rp = body["replay"]
     if rp.get("kind") == "demo":
         print("run:", rp.get("run"))
+        return 1
+    if rp.get("kind") == "direct":
+        calls, _, _ = direct_run(rp["spec"], rp["direct"], {})
+        top = [c for c in calls if c["path"] == () and c["depth"] == 0 and "out" in c]
+        why = direct_judge(rp["spec"], rp["direct"], canon_out(top[0]["out"])) if top else "no call recorded"
+        print("handle_subcommands on", json.dumps(rp["direct"]["tree"]), "->", json.dumps(canon_out(top[0]["out"]) if top else None)[:400])
+        print("contract:", why)
+        return 1 if why else 0
+    if "spec" not in rp:
+        print(json.dumps(rp)[:2000])
         return 1
     real = real_run(rp["spec"], rp["input"], record=False)
     devs, ref = judge(rp["spec"], rp["input"], real["res"])
